@@ -40,7 +40,10 @@ pub(crate) struct CommitOracle {
 
 struct OracleInner {
 	// xxh3_64(key) -> commit_seq of the most recent writer of that key.
-	recent_writes: HashMap<u64, u64>,
+	/// fingerprint -> (stamp of the last commit that wrote the key, the stamp that
+	/// commit overwrote). The second component lets a failed commit put the previous
+	/// stamp back instead of forgetting that the key was written at all.
+	recent_writes: HashMap<u64, (u64, Option<u64>)>,
 
 	// The smallest seq still represented in the map: every commit at
 	// `seq >= kept_since` is recorded. A txn with `start_seq < kept_since`
@@ -100,7 +103,7 @@ impl CommitOracle {
 			return Err(Error::TransactionRetry);
 		}
 		for k in keys {
-			if let Some(&committed) = g.recent_writes.get(&fp(k)) {
+			if let Some(&(committed, _)) = g.recent_writes.get(&fp(k)) {
 				if committed > start_seq {
 					return Err(Error::TransactionWriteConflict);
 				}
@@ -131,7 +134,17 @@ impl CommitOracle {
 		let mut g = self.inner.lock();
 		let stamp = seq_num + count - 1;
 		for k in keys {
-			g.recent_writes.insert(fp(k), stamp);
+			let fk = fp(k);
+			match g.recent_writes.get(&fk).copied() {
+				// the same key twice in one batch: keep the stamp this batch overwrote
+				Some((current, _)) if current == stamp => {}
+				Some((current, _)) => {
+					g.recent_writes.insert(fk, (stamp, Some(current)));
+				}
+				None => {
+					g.recent_writes.insert(fk, (stamp, None));
+				}
+			}
 		}
 
 		// `saturating_add` so the counter doesn't overflow if the watermark
@@ -162,7 +175,7 @@ impl CommitOracle {
 			}
 			g.commits_since_gc = 0;
 			g.kept_since = oldest_active;
-			g.recent_writes.retain(|_, v| *v >= oldest_active);
+			g.recent_writes.retain(|_, v| v.0 >= oldest_active);
 		}
 	}
 
@@ -195,9 +208,20 @@ impl CommitOracle {
 		let mut g = self.inner.lock();
 		for k in keys {
 			let fk = fp(k);
-			if let Some(&v) = g.recent_writes.get(&fk) {
+			if let Some(&(v, previous)) = g.recent_writes.get(&fk) {
 				if v == my_seq {
-					g.recent_writes.remove(&fk);
+					// Put back the stamp of the commit this one had overwritten: that
+					// commit succeeded, and transactions that began before it must still
+					// conflict on the key. (A previous stamp the GC would have pruned is
+					// harmless: the next GC drops it.)
+					match previous {
+						Some(p) => {
+							g.recent_writes.insert(fk, (p, None));
+						}
+						None => {
+							g.recent_writes.remove(&fk);
+						}
+					}
 				}
 			}
 		}
